@@ -1140,9 +1140,11 @@ def _sum_piece(wavelength, compound):
     Helper for neutron_composite_sld which precomputes quantities of interest
     for material fragments in a composite formula.
     """
-    # Sum over the quantities.
+    # Sum over the quantities.  The sums start out with the shape of the
+    # wavelength so that a material without atoms gives a row of zeros that
+    # stacks with the rows of the other materials.
     molar_mass = num_atoms = 0
-    b_c = sigma_s = 0
+    b_c = sigma_s = 0 if np.isscalar(wavelength) else np.zeros(np.shape(wavelength))
     for element, quantity in compound.atoms.items():
         # Same test as neutron_scattering: sld is unknown for this material.
         if not element.neutron.has_sld():
@@ -1150,8 +1152,8 @@ def _sum_piece(wavelength, compound):
         molar_mass += element.mass*quantity
         num_atoms += quantity
         b_ck, sigma_sk = element.neutron.scattering_by_wavelength(wavelength)
-        b_c += quantity * b_ck
-        sigma_s += quantity * sigma_sk
+        b_c = b_c + quantity * b_ck
+        sigma_s = sigma_s + quantity * sigma_sk
 
     return num_atoms, molar_mass, b_c, sigma_s
 
